@@ -10,6 +10,7 @@ import (
 	"math"
 	"strconv"
 	"strings"
+	"unsafe"
 
 	"golang.org/x/tools/go/ssa"
 )
@@ -56,6 +57,19 @@ func init() {
 		"internal/stringslite.Clone":                func(in *Interp, c *frame, fn *ssa.Function, a []Value) Value { return a[0] },
 		"strings.Clone":                             func(in *Interp, c *frame, fn *ssa.Function, a []Value) Value { return a[0] },
 		"bytes.Clone":                               ixBytesClone,
+		// slices.overlaps compares addresses with unsafe arithmetic; engine slices
+		// share Go backing arrays exactly as the modelled ones do, so the same
+		// comparison on the engine's own storage answers it.
+		"slices.overlaps": func(in *Interp, c *frame, fn *ssa.Function, a []Value) Value {
+			x, _ := a[0].(Slice)
+			y, _ := a[1].(Slice)
+			if len(x) == 0 || len(y) == 0 {
+				return mkBool(false)
+			}
+			x0, x1 := uintptr(unsafe.Pointer(&x[0])), uintptr(unsafe.Pointer(&x[len(x)-1]))
+			y0, y1 := uintptr(unsafe.Pointer(&y[0])), uintptr(unsafe.Pointer(&y[len(y)-1]))
+			return mkBool(x0 <= y1 && y0 <= x1)
+		},
 
 		// ---- internal/bytealg (assembly) ----
 		"internal/bytealg.IndexByte":           ixIndexByte,
